@@ -421,6 +421,21 @@ def summarize(obs):
     return " ".join(out)
 
 
+def unref_bounds(line, o):
+    """(scheduled sends that succeeded, lower bound, upper bound) of an unrefreshable UDP session.
+    Lower bound: sends that had RETURNED before tick - early (as Spec.C14.udpUnrefreshable judges them): the time stamp
+    of a call says when the application decided to call, not when the library ran - on a loaded machine the goroutine
+    can lose the processor in between, past the tick. Upper bound: sends called before tick + slack."""
+    opkv = dict(t.split("=", 1) for t in line.split(" ")[3:] if "=" in t)
+    tick = int(opkv["refresh"]) * 1000
+    ok_kv = dict(t.split("=", 1) for t in o.split(" ")[1:] if "=" in t)
+    es = [x.split(":") for x in ok_kv.get("sends", "-").split(",") if x.startswith("e")]
+    ok_e = sum(1 for x in es if x[3] == "ok")
+    lo = sum(1 for x in es if int(x[2]) < (tick - int(opkv["early"])) * 1000)
+    hi = sum(1 for x in es if int(x[1]) < (tick + int(opkv["slack"])) * 1000)
+    return ok_e, lo, hi
+
+
 def run(ctx):
     cases = gen_cases(ctx.tier, ctx.seed)
     lines = [c.ops[0] for c in cases]
@@ -443,6 +458,12 @@ def run(ctx):
              "datagram-after-close", "bytes-after-close", "app-message-missing", "close-did-not-return", "background-goroutine-left",
              "send-failed-while-open", "send-succeeded-after-failed-refresh"}
     retried = [i for i, v in enumerate(verdicts) if (v or "").startswith("fails ") and (v.split(" ") + [""])[1] in TIMED]
+    # the count bounds of the unrefreshable sessions (below) rest on the same clock: a session outside them is run again alone too
+    for i, (l, o) in enumerate(zip(lines, impl)):
+        if "unrefreshable=" in l and o.startswith("udp ") and i not in retried:
+            b = unref_bounds(l, o)
+            if not b[1] <= b[0] <= b[2]:
+                retried.append(i)
     for i in retried[:6]:
         o2, e2, rc2, race2 = run_harness(ctx.harness, [lines[i]], ctx.workdir, "retry%d" % i, 1, 180)
         if rc2 == 0 and len(o2) == 1:
@@ -472,7 +493,7 @@ def run(ctx):
                                   "what": "the op says unrefreshable=%s, the Lean model cannot rebuild: %s" % (unref or "-", mk.get("unbuildable"))})
         elif unref is not None:
             # the model's canonical run: the first tick (refresh * 1000 ms) closes the process without a refresh; exactly the
-            # sends scheduled before it succeed. Implementation: a send CALLED before tick - early succeeded, one called
+            # sends scheduled before it succeed. Implementation: a send that RETURNED before tick - early succeeded, one called
             # after tick + slack did not (in between either; the Spec judges the same on every call, with its reason)
             tick = int(opkv["refresh"]) * 1000
             sched = [int(x.split("~", 1)[0]) for x in opkv["sends"].split("!")]
@@ -482,14 +503,10 @@ def run(ctx):
                                       "what": "the Lean model's canonical run of an unrefreshable session: app-ok=%s refresh=%s, expected the %d "
                                               "sends scheduled before the first tick and no refresh" % (mk.get("app-ok"), mk.get("refresh"), before)})
             elif o.startswith("udp "):
-                ok_kv = dict(t.split("=", 1) for t in o.split(" ")[1:] if "=" in t)
-                es = [x.split(":") for x in ok_kv.get("sends", "-").split(",") if x.startswith("e")]
-                ok_e = sum(1 for x in es if x[3] == "ok")
-                lo = sum(1 for x in es if int(x[1]) < (tick - int(opkv["early"])) * 1000)
-                hi = sum(1 for x in es if int(x[1]) < (tick + int(opkv["slack"])) * 1000)
+                ok_e, lo, hi = unref_bounds(c.ops[0], o)
                 if not lo <= ok_e <= hi:
                     disagreements.append({"case": ci, "ops": c.ops, "impl": summarize(o), "model": m0, "label": c.label,
-                                          "what": "scheduled sends that succeeded: implementation %d, expected between %d (called before the first "
+                                          "what": "scheduled sends that succeeded: implementation %d, expected between %d (returned before the first "
                                                   "tick) and %d (called before tick + slack); model %s" % (ok_e, lo, hi, mk.get("app-ok"))})
         elif proto == "udp" and o.startswith("udp "):
             ok_kv = dict(t.split("=", 1) for t in o.split(" ")[1:] if "=" in t)
